@@ -80,3 +80,9 @@ def oracle(c):
         if "fault(" in o and not o.startswith("ok("):
             out.append(("abort", {"line": line[:300], "impl": o[:300]}))
     return out
+
+
+def search(rng, corr_failures, run_cases):
+    import sys
+
+    return D.search_decode(sys.modules[__name__], rng, corr_failures, run_cases)
